@@ -841,6 +841,7 @@ pub fn main(args: &[String]) {
         ],
         wall_s: wall,
         violations: out_viol,
+        occurrences: BTreeMap::new(),
     });
 }
 
